@@ -284,9 +284,13 @@ fn main_loop(w: &mut World, st: &mut St, tape: &mut Tape) -> Result<(), Violatio
                 if let Some(p) = &pkt {
                     tag = on_arrive(w, st, to, p, alone)?;
                 }
-                if corrupted == 1 && w.props.has("C08") && alone {
-                    c08c_check(w, st, to, frame, tape)?;
+                if (corrupted == 1 || corrupted == 4) && w.props.has("C08") && alone {
+                    c08c_check(w, st, to, frame, tape, corrupted == 4)?;
                     service(w, st, to, tape)?;
+                } else if corrupted == 4 {
+                    // only ever delivered under the C08 single-frame check (the listed C08 finding would
+                    // otherwise surface as an unexpected delivery in the datagram model): here it is a drop
+                    w.stats.inc("fault.drop");
                 } else {
                     w.nodes[to].dev.rx.push_back(frame);
                     st.pending[to].push_back(tag);
@@ -473,7 +477,7 @@ fn on_arrive(w: &mut World, st: &mut St, to: usize, p: &Packet, alone: bool) -> 
     Ok(tag)
 }
 
-fn c08c_check(w: &mut World, st: &mut St, to: usize, frame: Vec<u8>, _tape: &mut Tape) -> Result<(), Violation> {
+fn c08c_check(w: &mut World, st: &mut St, to: usize, frame: Vec<u8>, _tape: &mut Tape, zero6: bool) -> Result<(), Violation> {
     let snap = |w: &World, st: &St| -> String {
         let mut s = String::new();
         for so in &st.socks[to] {
@@ -492,11 +496,15 @@ fn c08c_check(w: &mut World, st: &mut St, to: usize, frame: Vec<u8>, _tape: &mut
     w.stats.inc("c08.corrupt-alone-checked");
     if !info.tx.is_empty() {
         let reply = decode_frame(st.medium, &info.tx[0], &Verify::none()).map(|p| p.summary()).unwrap_or_default();
+        if zero6 {
+            return Err(viol("C08", "corrupt-equals-loss", "C08.corrupt/udp-over-ipv6-with-zero-checksum-field-accepted", format!("a UDP/IPv6 frame with a zero checksum field was answered with: {} ; frame={}", reply, crate::tap::hex(&frame))));
+        }
         return Err(viol("C08", "corrupt-equals-loss", "C08.corrupt/reply-emitted", format!("a frame failing its checksum was answered with: {} ; damaged frame={}", reply, crate::tap::hex(&frame))));
     }
     if before != after {
         let (a, b) = crate::scen_tcp::first_diff(&before, &after);
-        return Err(viol("C08", "corrupt-equals-loss", "C08.corrupt/socket-changed", format!("a frame failing its checksum changed socket state: ..{}.. => ..{}.. ; damaged frame={}", a, b, crate::tap::hex(&frame))));
+        let sig = if zero6 { "C08.corrupt/udp-over-ipv6-with-zero-checksum-field-accepted" } else { "C08.corrupt/socket-changed" };
+        return Err(viol("C08", "corrupt-equals-loss", sig, format!("a frame failing its checksum changed socket state: ..{}.. => ..{}.. ; damaged frame={}", a, b, crate::tap::hex(&frame))));
     }
     Ok(())
 }
